@@ -8,84 +8,84 @@ CLAIMED = {
  'C11': dict(engine='E1', technique='Coq proof over R of definitions regenerated from svg_transform.py by a Python-ast translator; Fraction-exact differential run of the extracted model',
              text='Theorems (Coq, over the reals) about the definitions the translator regenerates from svg_transform.py/geometric_types.py on every run: matrix product is map composition, compose_ltr applies the first transform first for lists of any length, primitive ops are the SVG matrices, inverse undoes every non-degenerate matrix, viewport mapping and decompositions. Any semantic edit changes the generated definitions and breaks a proof; a spec-judged small-scope search then produces the failing input.',
              note='Floats modelled as exact reals (IEEE rounding not modelled); stdlib real-number axioms; translator, extraction and the line-protocol driver are trusted glue validated by exact Fraction correspondence on every run.',
-             design='§7 C11'),
+             design='§12.2, §7 C11'),
 }
 CLAIMED['C12'] = dict(engine='E4', technique='Coq proof over R (closed-form Bezier error identity + interval bounds) of definitions regenerated from arc_to_cubic.py; differential run of the extracted model with CPython math as oracle; spec-side (SVG F.6) judge for the search',
     text='Partial proof. Proved for all arcs about the regenerated code: output shape and segment count, per-segment angle <= pi/2+0.001, the closed-form radial error 16 s^2(1-s)^2(2s-1)^2 u^6/(1+u^2)^2 and hence every cubic point within 0.03% outside the corrected ellipse, continuity, exact final end point, radius correction incl. negative radii, degenerate cases. Not proved: that the centre parametrisation realises the flags and puts the first start on the arc start (covered by the differential run and the spec judge).',
     note='Reals for floats; math.* denote Coq Reals functions (base/Num.v RMath); Coq-Interval used for two numeric bounds; translator + extraction + driver trusted glue; float rounding of the implementation observed (<=2e-6 relative in the sqrt-amplified regime), not bounded.',
-    design='§7 C12')
+    design='§12.2, §7 C12')
 CLAIMED['C09'] = dict(engine='E3', technique='Coq proof: generic simulation theorem between the walk state machine (callbacks regenerated from svg_types.py) and an SVG path interpreter written from the standard, instantiated per rewrite by 20-letter case analysis; exhaustive small-scope + random differential run; spec judge',
     text='Partial proof. For command lists of any length: the walk bookkeeping equals the standard current-point rules; explicit_lines, expand_shorthand, absolute, absolute_moveto, relative and move preserve (or shift) the interpreted segment list exactly; target forms; rounding bound. The absolute/relative theorems assume no 1e-9 near miss of the subpath start (the code snaps those). subpaths(), arcs in as_cmd_seq, basic-shape outlines are covered by the exhaustive correspondence (all sequences of <=2/3 commands over 20 letters) and the spec judge run on every check.',
     note='Reals for floats; model/Walk.v (walk loop) hand-written and correspondence-checked; spec/PathSem.v is the meaning of path data; one known finding (arcs_to_cubics API followed by shorthand).',
-    design='§7 C09')
+    design='§12.2, §7 C09')
 CLAIMED['C10'] = dict(engine='E2', technique='Coq model of the regex tokenizer pinned (by provable string equalities) to the regexes regenerated from source, SVG 1.1 grammar as an executable Coq spec; exhaustive-string differential run (all strings <=5/6 chars over a 14-symbol alphabet + token sequences) and grammar judge',
-    text='Partial. Machine-checked: the tokenizer model is pinned to the exact regular expressions / lexer tables of the current source (any edit breaks an obligation), totality (command list or ValueError), agreement with the grammar on an adversarial table. Soundness against the grammar for all strings and the print/parse round trip are not yet theorems: they are decided on every run by the exhaustive correspondence (implementation = model on 6*10^5 strings) and the grammar judge evaluated on the implementation.',
+    text='Partial. Machine-checked: the tokenizer model is pinned to the exact regular expressions / lexer tables of the current source (any edit breaks an obligation), totality (command list or ValueError), agreement with the grammar on an adversarial table, and the print/parse round trip: for every exploded command list whose numbers print to lexemes the scanners read back completely (checked for every number the run prints), parsing the printed path returns exactly the list. Soundness against the grammar for all strings is not yet a theorem: it is decided on every run by the exhaustive correspondence (implementation = model on 6*10^5 strings) and the grammar judge evaluated on the implementation.',
     note='Hand model (H) of regex semantics; CPython float()/repr() trusted; ASCII only; one fix commit (leading zeros).',
-    design='§7 C10')
+    design='§12.2, §7 C10')
 CLAIMED['C15'] = dict(engine='E6', technique='Coq: static analysis of cache-bookkeeping skeletons (extracted from svg.py on every run) proved sound for every interpretation satisfying the two flush/populate laws; table check by vm_compute; history differential (all histories <=2/3 steps x corpus) against the re-parse reference',
     text='Proof for histories of any length over the methods whose regenerated skeleton passes the verified analysis (all public methods except apply_style_attributes, a recorded finding): lazily cached run = re-parse-between-steps run; copies leave the receiver unchanged; in-place bodies return the receiver (syntactic check of every return). The primitives (what an edit or mutation does, the two conversion laws) are abstract and exercised by the history differential.',
     note='Skeleton extractor (tools/skeletons.py) trusted and fail-closed; laws populate(flush t c)=c and flush(flush t c)c\'=flush t c\' assumed of the dataclass<->element conversion; lxml round trip trusted. Axiom-free.',
-    design='§7 C15')
+    design='§12.2, §7 C15')
 CLAIMED['C13'] = dict(engine='E5', technique='Coq proof relative to an explicit engine contract (Section hypotheses) about a hand model of svg_pathops.py; model runs the real Skia through an oracle in the differential run (identical outputs required); contract sampled with exact rational winding numbers',
     text='Proved for operand lists of any length, relative to the stated contract of pathops.op / simplify: the wrappers return the fold of the set operation over the operands each under its own fill rule, rule-independent result, errors propagate (no wrong path on engine failure), stroke fallback keeps the interior, only M L Q C Z reach the engine. That Skia satisfies the contract is NOT proved: it is sampled on every run on lattice polygons with exact winding numbers outside the epsilon band.',
     note='Engine contract assumed (hypotheses op_contract, simplify_contract in props/C13.v); hand model of the wrappers validated by oracle-in-the-loop correspondence (same engine, identical commands).',
-    design='§7 C13')
+    design='§12.2, §7 C13')
 CLAIMED['C18'] = dict(engine='E5', technique='Coq proof of the might_paint decision ladder relative to the engine contract for area/simplify; hand model run with the real Skia in the loop; exact-polygon judge for verdicts and subpath pruning',
     text='Proved (relative to the stated contract: simplify preserves the interior, a path without positive area encloses nothing, pen moves paint nothing): might_paint = False implies no fill and no stroke paint anywhere, after style declarations are applied; a visible stroke of non-zero width, a visible fill with positive area, and any engine failure give True; removing unpainted shapes leaves the painted point set of any shape list unchanged. remove_empty_subpaths is decided by the differential run and the exact-polygon judge.',
     note='Engine contract assumed and sampled; Shape.v is a hand model (typed fields, style as parsed declarations) validated by 1500+/30000 oracle-in-the-loop cases; one fix commit (subpath pruning of stroked paths).',
-    design='§7 C18')
+    design='§12.2, §7 C18')
 CLAIMED['C19'] = dict(engine='E1/E5', technique='Coq proof over R of Rect.intersection/union regenerated from source; clip theorems relative to the engine contract; oracle-in-the-loop differential run on picosvg documents; exact-polygon and closed-form-extrema judges',
     text='Proved: Rect.intersection returns the overlap exactly when it has positive area (else None), Rect.union is the least box; relative to the engine contract a dropped shape had nothing inside the viewBox and a kept shape is either untouched (entirely inside) or its interior is exactly subject /\\ viewBox /\\ bounds with paint, opacity and id kept and rule reset to nonzero. Tightness of Skia bounds, paint order and the group cleanup are decided by the differential run (identical outputs with the same engine) and the sample-point judge.',
     note='Engine contract assumed (ops, bounds contain interior, rectangle path encloses the open rectangle); Clip.v hand model validated on documents with shapes inside/outside/across every side and corner.',
-    design='§7 C19')
+    design='§12.2, §7 C19')
 CLAIMED['C20'] = dict(engine='E6', technique='Coq proof, for arbitrary candidate generators, that every exit of the reuse search is guarded by the verification step (incl. the rounding search); hand model with candidates as coded checked against the implementation; spec-side outline judge',
     text='Partial. Proved: any Some(A) returned is the identity for almost-equal shapes or has passed _try_affine, i.e. the transformed first outline agrees with the second command for command within the tolerance (almost_equals characterised as letter/arity/argument-wise closeness); identical shapes give the identity; nothing is reported when no matrix verifies. The geometric reading of apply_affine and "an exact translation is always found" are judged on the implementation on every run.',
     note='Reuse.v is a hand model (arc-free paths) validated against the implementation incl. candidate matrices; atan2/sqrt from CPython in the differential run.',
-    design='§7 C20')
+    design='§12.2, §7 C20')
 CLAIMED['C05'] = dict(engine='E5', technique='Coq: compositing algebra for group flattening and the inheritance loop over the regenerated handler table; hand model of the inheritance helpers checked against the implementation helpers; end-to-end spec-side renderer judge on every run',
     text='Partial. Proved: source-over algebra (associativity; opaque / transparent / single-child groups flatten with the opacity multiplied in; a translucent group with overlapping children must be kept — counterexample), and for the model of _inherit_attrib that each handler touches only its attribute and copied properties resolve to the own value else the context (nearest ancestor). Not a theorem: that the whole pipeline realises this for every document — decided on every run by rendering source and converted documents with an independent spec-side renderer at sample points. Two recorded findings (root opacity, unclamped out-of-range shape opacity).',
     note='Inherit.v hand model validated on 1500/30000 random attribute maps against the real helpers; dyadic opacities; renderer is trusted spec-side code.',
-    design='§7 C05')
+    design='§12.2, §7 C05')
 CLAIMED['C02'] = dict(engine='E5', technique='Coq proof over R of transform accumulation along ancestor chains of any depth, use and nested-svg transforms (arithmetic regenerated from source); exact differential run of depth_first contexts / resolve_use / resolve_nested_svgs; end-to-end spec-side renderer judge',
     text='Partial. Proved for trees of any depth: the context transform maps through own transform first, ancestors after (parent last); use = translate(x,y) then its transform; nested svg = viewport transform then own transform. Not a theorem: z-order preservation, shape-to-path (C09 judge) and the whole pipeline — decided on every run by rendering source and converted documents (structural grammar incl. rotate/skew, nested use, all alignments) with the independent renderer. One fix commit (viewBox equal to viewport).',
     note='Structure.v hand model validated exactly against depth_first()/resolve_use()/resolve_nested_svgs(); renderer trusted spec-side code; Skia applies the matrices (engine contract).',
-    design='§7 C02')
+    design='§12.2, §7 C02')
 CLAIMED['C03'] = dict(engine='E5', technique='Coq proof relative to the engine contract of a hand model of _resolve_clip_path (fuel-indexed recursion over clipPath chains) and of the clipping step; oracle-in-the-loop differential run; spec-side renderer judge on documents with stacked / chained / use clips',
     text='Partial. Proved relative to the contract (ops, simplify, transform, C09 normal form): the resolved clip is the union of the children under their effective clip-rule placed by child.tf . clipPath.tf . referrer CTM, intersected with the clipPath\'s own clip for chains of any length; a clipped leaf is its fill region (fill-rule) inside every clip (nonzero results). Which clips reach which leaf (ancestor stacking, use) and absence of clip-path in the output are decided on every run by the renderer judge. One fix commit (clip-rule inherited from the clipPath element); one recorded finding (clip-path on use).',
     note='Engine contract assumed; Clips.v hand model validated with the real engine (identical commands) on 200/5000 clipPath configurations.',
-    design='§7 C03')
+    design='§12.2, §7 C03')
 CLAIMED['C01'] = dict(engine='E5', technique='Coq proof about a hand model of the checkpicosvg gate (allow-list over typed-index element paths, required defs, duplicate ids) tied to the code by a differential run on random element trees; spec-side README-grammar checker judging library and CLI conversions over ndigits x allow_text x drop_unsupported on every run',
-    text='Partial. Proved: every element path admitted by the allow-list has one of the five README shapes (root, defs[0], gradient in defs, stop in gradient, chain of g/path), and a tree that passes the gate has only such paths, has /svg[0]/defs[0] and unique ids - topicosvg returns normally only through that gate. Not proved: attribute-level and path-data conditions (the gate does not check them); these are decided on every run by tools/pico.py applied to conversions of generated documents (library + CLI). One fix commit (groups left underfull / with opacity 0 by late shape removal).',
+    text='Partial. Proved: every element path admitted by the allow-list has one of the five README shapes (root, defs[0], gradient in defs, stop in gradient, chain of g/path), and a tree that passes the gate has only such paths, has /svg[0]/defs[0] and unique ids - topicosvg returns normally only through that gate. With drop_unsupported, whatever the tree, pruning leaves only allowed paths (so the call cannot fail because of unsupported elements). Not proved: attribute-level and path-data conditions (the gate does not check them); these are decided on every run by tools/pico.py applied to conversions of generated documents (library + CLI). One fix commit (groups left underfull / with opacity 0 by late shape removal).',
     note='Gate model validated on 600/12000 random trees (verdict and pruned tree identical); judge covers 260/6000 documents.',
-    design='§7 C01')
+    design='§12.2, §7 C01')
 CLAIMED['C08'] = dict(engine='E5', technique='Coq proof about a hand model of the id/reference bookkeeping (_new_id, use instancing, stroke splitting, orphan removal, gate) tied to the code by a differential run; spec-side reference-graph checker on conversions of documents with heavily shared ids on every run',
     text='Partial. Proved: _new_id returns the lowest free id (never one in use); any number of _resolve_use passes, and splitting a stroked shape, keep ids unique; _remove_orphaned_gradients keeps exactly the gradients some fill resolves to (none unused, none referenced removed); a normal return has unique ids (gate). The composition inside topicosvg (which references exist when each step runs) is decided on every run by tools/pico.check_refs on generated documents. One fix commit (gradient orphaned by an invisible sole user).',
     note='Refs.v validated on 900/15000 cases over five mechanisms; judge covers 300/6000 documents with shared ids.',
-    design='§7 C08')
+    design='§12.2, §7 C08')
 CLAIMED['C07'] = dict(engine='E3', technique='Coq proof that a document in pico form is a fixed point of the individual rewriting steps (path rewrites over R via the generated walk callbacks, rounding, group decision, orphan removal), models tied to the code by differential runs; byte-level three-pass judge on generated documents x ndigits on every run',
     text='Partial. Proved: explicit_lines, expand_shorthand, absolute and round_floats are the identity on absolute M/L/C/Q/A/Z paths rounded to nd <= 8 digits (absolute because rounded positions cannot be near misses of the subpath start); rounding is idempotent; a kept group (opacity in (0,1), >= 2 children) is kept unchanged; orphan removal is idempotent. Not proved: gradient rewriting, float printing under re-parse, step order - decided by the three-pass byte comparison and checkpicosvg on every run. Two fix commits (underfull groups, orphaned gradients); one recorded finding (defs order).',
     note='Theorems over exact reals; judge covers 220/5000 documents x ndigits 0..6, three passes each.',
-    design='§7 C07')
+    design='§12.2, §7 C07')
 CLAIMED['C14'] = dict(engine='E5', technique='Coq proof about a hand model of the cleaning front end (namespaces, comments, PIs, symbols, title/desc/metadata) tied to the code by a differential run on random trees; paired-conversion judge with a spec-side noise inserter on every run',
     text='Partial. Proved: the five cleaning passes equal a one-pass purge; inserting comments, PIs, title/desc/metadata, foreign-namespace elements and id-less symbols (each with arbitrary content, at arbitrary positions and depths, also inside each other) and adding foreign-namespace attributes leaves the cleaned tree unchanged; a tree without such content is returned unchanged. Not proved: bare wrapper groups, whitespace/XML declaration (parser level) and that the rest of the pipeline depends on the cleaned tree only - decided on every run by comparing convert(D) with convert(N(D)) up to gradient ids, defs order and the last digit of gradient numbers.',
     note='Noise.v validated on 700/12000 random trees; judge covers 200/4000 (D, N(D)) pairs with 1-8 insertions over 12 noise kinds.',
-    design='§7 C14')
+    design='§12.2, §7 C14')
 CLAIMED['C16'] = dict(engine='E6', technique='Coq proof about the memoisation state machine and the sorted-key iteration of _inherit_attrib; inventory of caches / module state / hash-order constructs regenerated and pinned on every run; the lru_cache discipline observed on real conversions; multi-process judge over hash seeds, fresh vs long-lived processes and batch orders',
     text='Partial. Proved: under clear-before-use (what _update_etree does) the shared lru_cache is invisible for any history of phases and earlier documents; _inherit_attrib does not depend on the order of the attribute map (sorted iteration; insertion sort shown order-free). Pinned: the only cache is _inherited_attrib, no module-level state is mutated at run time, the one sequence built from a set is used for membership only. Hash randomisation, process boundaries and the interpreter cannot be modelled: each run converts documents in fresh processes under 5-9 hash seeds and in permuted batches in one process and compares sha256 with the document converted alone.',
     note='Runtime behaviour (hashing, processes) is exercised, not proved.',
-    design='§7 C16')
+    design='§12.2, §7 C16')
 CLAIMED['C17'] = dict(engine='E5', technique='Coq proof about hand models of the reference-following loops (use-graph check and pass structure of _resolve_use, gradient href recursion, fuelled clip recursion) tied to the code by a differential run; watchdogged adversarial judge (time bound, memory limit, grammar of results, external entity marker) on every run',
-    text='Partial. Proved: the reference-graph check takes at most one round per id, rejects every self reference and accepts only ranked graphs; on a ranked graph the expansion loop has no live reference after |ids|+1 passes; href chains end in a result or an exception for every reference table, cyclic ones in RecursionError. Runtime behaviour (wall-clock, memory, lxml entity handling) is decided by the judge: each adversarial document runs in a subprocess under an alarm and an address-space limit and must return a pico document or raise within 2 s + 3 ms per expanded element. One fix commit (use cycles looped forever).',
+    text='Partial. Proved: the reference-graph check takes at most one round per id, rejects every self reference and accepts only ranked graphs; on a ranked graph the expansion loop has no live reference after |ids|+1 passes; the tidy loop of topicosvg exits within #groups+1 iterations (removals shrink the group count, observed on every run); href chains end in a result or an exception for every reference table, cyclic ones in RecursionError. Runtime behaviour (wall-clock, memory, lxml entity handling) is decided by the judge: each adversarial document runs in a subprocess under an alarm and an address-space limit and must return a pico document or raise within 2 s + 3 ms per expanded element. One fix commit (use cycles looped forever).',
     note='Bounds on the number of passes / recursion steps are proved; the cost of a pass is measured.',
-    design='§7 C17')
+    design='§12.2, §7 C17')
 CLAIMED['C04'] = dict(engine='E5', technique='Coq proof about a hand model of stroke_commands / _stroke (dash-interval equivalence over all interval indices; compositing of the two pieces) with the Skia stroker as an oracle; oracle-in-the-loop differential run; independent three-valued stroke evaluator judging converted documents on every run',
     text='Partial. Proved: the doubled odd-length dash array selects the same on/off interval as the SVG rule for every index; the fill piece below the stroke piece composites like the stroked shape whenever opacity is 1 or only one piece covers the point (and differs otherwise, by example). Not proved: that the Skia outline is the ideal stroke region, and the order stroke-then-transform-then-clip in _simplify - decided on every run by compositing source (ideal stroke region, three-valued) and output at sample points under caps, joins, miter limits, dashes, offsets, inherited properties and non-uniform ancestor transforms.',
     note='Stroke.v validated with the real engine on 260/4000 cases (identical pieces); judge covers 120/2500 documents, 729 sample points each.',
-    design='§7 C04')
+    design='§12.2, §7 C04')
 CLAIMED['C06'] = dict(engine='E5', technique='Coq proof (exact reals) about a hand model of the gradient rewriting built on the Affine2D functions translated from svg_transform.py; differential run against _transformed_gradient / _apply_gradient_template; independent gradient evaluator sampling colours of source and output on every run',
     text='Partial. Proved in exact arithmetic: resolving bounding-box units, baking the ancestor transform into gradientTransform and folding the translation into the coordinates send every gradient-space point to a point with the same world image and the same gradient parameter (linear: projection on the gradient vector; radial: any function of point and circles relative to the focal point), given that decompose_translation recomposes exactly - proved for its main branch; template resolution gives own-else-template for the attributes of the gradient\'s own class. Not proved: the 6-decimal rounding, the degenerate decomposition branches, percentages/defaults parsing, and the end-to-end claim - decided on every run by comparing colours of source and converted document at interior sample points (all units, transform lists, spread methods, href chains) and by checking that output gradients are self-contained.',
     note='Gradient.v validated on 400/6000 cases (numbers within 3e-6); judge covers 150/3000 documents, 841 sample points each.',
-    design='§7 C06')
+    design='§12.2, §7 C06')
 PENDING = {}
 
 def main():
